@@ -7,8 +7,4 @@ CONSTANTS
   LimMode = "all"
   Firsts = {"lo", "up", "dg", "us", "st", "sp", "dd", "sl", "dq", "sq", "bt", "bs", "nl", "nu", "d2", "d3", "nd", "no", "ns", "iv"}
   Sample = FALSE
-INVARIANT OwnContentFindsIt
-INVARIANT NoUnproducibleToken
-INVARIANT RenderLexRoundTrip
-INVARIANT LowerShortcutSound
-INVARIANT Emit
+INVARIANT CheckAndEmit
